@@ -103,7 +103,9 @@ def c13(tier, seed):
 
 
 def c15(tier, seed):
-    return px_runs(tier, "C15", with_c10=False)
+    # parse side: format-table parse executor; write side (signed zero, NaN without '-', disabled specials): write executor
+    w = [r for r in wx_runs(tier, "C15") if r["bin"] in ("wx_w0", "wx_std")]
+    return px_runs(tier, "C15", with_c10=False) + w
 
 
 def c19(tier, seed):
@@ -116,7 +118,60 @@ def c19(tier, seed):
     return runs
 
 
+WX_RULE = ("formats = compile-time sample seeded by VERIF_SEED: STANDARD, each of the 16 write-relevant syntax flags toggled alone (required/forbidden mantissa and exponent signs, "
+           "no/required exponent notation, no_exponent_without_fraction, required integer/fraction/exponent/mantissa digits, no_special, case-sensitive special/exponent, leading-zero flags), then seeded "
+           "flag combinations over radix flavours (decimal, hex with/without prefix, C hex floats 16/2/10, radix 2/4/8/32 with own or decimal exponent digits, mixed bases 4/2 8/2 32/2 16/4 16/2, "
+           "24 generic radices incl. decimal exponent digits; a quarter with digit separators configured), plus lexical's prebuilt language formats (32 per part, all 147 in the thorough tier) decoded through the getters, "
+           "and radix-only formats for builds without `format`. Per format 3 punctuation/special-string variants (conventional; seeded decimal point / exponent character / nan-inf strings of 1..50 letters; one special "
+           "disabled) x 40 (thorough 160) write-option points (fixed corners: trim, breaks +-1 / +-1300, max 1..17 x {round, truncate}, min 1..300, min==max, min 1200; seeded: max<=100, min<=1075, breaks across the "
+           "whole exponent range, round mode, trim) x floats aimed at the writers (zeros, extremes, binades, powers of the radix +-1 ulp, digit patterns that carry / tie / sit one digit above or below a tie in the "
+           "format's radix, integers, short decimals, random bits; both signs; NaN/inf with payloads) for f64 (+ f32 on every 2nd format) and integers (all 12 types on every 8th format, i32+u64 otherwise). "
+           "Every output buffer is exactly the documented bound, flush against a PROT_NONE guard page (alternating sides) with a 96-byte canary zone on the other side; a sample is re-written into every "
+           "interesting shorter length (0, 1, len-1, len, len+1, bound/2, bound-1, random) on both sides. The default API (all 14 types) is driven the same way with every buffer length 0..FORMATTED_SIZE_DECIMAL.")
+
+
+def wx_runs(tier, prop):
+    a = ["prop=" + prop]
+    runs = []
+    bins = ["wx_w0", "wx_w1", "wx_b0"]
+    if tier == "thorough":
+        bins += ["wx_w2", "wx_w3", "wx_b1", "wx_b2", "wx_b3", "wx_b4"]
+    for b in bins:
+        runs.append(run("rf", "rel", b, a, tag=prop))
+    runs.append(run("crf", "rel", "wx_w0", a, tag=prop))
+    runs.append(run("rf", "dbg", "wx_w0", a + ["nfmt=8"], tag=prop + "dbg"))
+    if tier == "thorough":
+        runs.append(run("crf", "rel", "wx_b0", a, tag=prop))
+        runs.append(run("f", "rel", "wx_w0", a, tag=prop))
+        runs.append(run("cf", "rel", "wx_w0", a, tag=prop))
+        runs.append(run("crf", "dbg", "wx_w1", a + ["nfmt=8"], tag=prop + "dbg"))
+    for c in ["d", "c"] + (["p", "r", "nd", "nc", "cr"] if tier == "thorough" else []):
+        runs.append(run(c, "rel", "wx_std", a + ["defaultapi"], tag=prop))
+    runs.append(run("d", "dbg", "wx_std", a + ["defaultapi", "nfmt=1"], tag=prop + "dbg"))
+    return runs
+
+
+def c08(tier, seed):
+    return wx_runs(tier, "C08")
+
+
+def c09(tier, seed):
+    return wx_runs(tier, "C09")
+
+
+def c14(tier, seed):
+    return wx_runs(tier, "C14")
+
+
+def c17(tier, seed):
+    return wx_runs(tier, "C17")
+
+
 PLANS = {
+    "C08": c08,
+    "C09": c09,
+    "C14": c14,
+    "C17": c17,
     "C01": c01,
     "C05": c05,
     "C10": c10,
@@ -209,6 +264,33 @@ META = {
         "The evidence notes carry the largest distance bucket observed. Includes no-std builds (crate-local libm floor).",
         "assumptions": ["the 2048/256 ulp bound is the property's; the oracle measures it exactly"],
     },
+    "C08": {
+        "rule": WX_RULE + " Judged: every written output is parsed by the complete parser of the SAME format with parse options that agree on decimal point, exponent character and special strings: it must be "
+        "accepted in full; integers, zeros, infinities bit-identical, NaN -> NaN (unless the format forbids specials), decimal and power-of-two (incl. mixed-base) floats bit-identical when max_significant_digits is unset.",
+        "assumptions": ["generic (non power-of-two) radices: acceptance only, as in the statement", "outputs truncated by max_significant_digits: acceptance only"],
+    },
+    "C09": {
+        "rule": WX_RULE + " Judged: at the documented bound (buffer_size_const / FORMATTED_SIZE_DECIMAL) the call must return, the returned slice must start at the buffer start and lie within it; at every "
+        "shorter length it must return within the slice or panic; in all cases no guard-page hit and the canary zone next to the slice intact. distinct_nontrivial = distinct (value, format, options) write events; the counters "
+        "c09.short-buffer-* give the number of shorter-buffer calls and how many succeeded / panicked.",
+        "assumptions": ["guard pages and canaries see writes (and guard-side reads) outside the slice; reads of the canary side and intra-slice misuse are left to the Miri / ASan / memcheck runs of this check"],
+    },
+    "C14": {
+        "rule": WX_RULE + " Judged against the DEFAULT-options output of the same float in the same format (itself judged): output well-formed with exactly the configured point / exponent characters and sign rules; "
+        "significant digits (leading/trailing zeros stripped) <= max; digits from the first non-zero one to the end >= min unless trimmed as an integer; digits == default digits rounded half-even (Round) or cut (Truncate) at max "
+        "digits incl. carries (exact digit arithmetic in the radix, odd radices compared against the infinite h.hhh expansion of one half); exponent notation never under no_exponent_notation, always under "
+        "required_exponent_notation, otherwise iff a scientific exponent lies outside the breaks; trim_floats output == untrimmed output minus the all-zero fraction.",
+        "assumptions": [
+            "'scientific exponent' may be read on the default output, on the rounded output, and for power-of-two radices as the binary exponent or its quotient by bits-per-digit / bits-per-exponent-base (the writers use the binary exponent)",
+            "mixed-base formats with max_significant_digits: digit counts and notation are judged, the rounded value is not (digit alignment differs between notations)",
+        ],
+    },
+    "C17": {
+        "rule": WX_RULE + " Judged: lexical::to_string_with_options bytes == lexical_core::write_with_options bytes for every second (value, format, options) event and every integer event, lexical::to_string == "
+        "lexical_core::write for the default API, to_string* never panics under valid options, every written byte < 0x80; lexical::parse / parse_partial / parse_with_options / parse_partial_with_options == the "
+        "lexical_core functions (value bits, count, error) for f64, f32, i64, u8, i128, usize on a hostile corpus (seed literals with spliced bytes).",
+        "assumptions": [],
+    },
     "C10": {
         "rule": PX_RULE + " Judged: no panic (release and debug-assertion builds), no guard-page hit, partial count <= len, error index <= len.",
         "assumptions": ["a guard page catches out-of-slice access only within one page of the slice; intra-allocation misuse is left to Miri (thorough tier)"],
@@ -237,7 +319,8 @@ META = {
     "C15": {
         "rule": PX_RULE + " Judged (parse side): special accepted exactly when, after the sign rules of the format, the rest equals nan/inf/infinity "
         "(case per flag, separators ignored only with special_digit_separator, never with no_special or None strings); no grammatical number yields "
-        "NaN; signs preserved. The write side (signed zero, NaN without minus, disabled special panics) is judged by the C08 executor.",
+        "NaN; signs preserved. Write side (write executor): +-0.0 written with/without '-', NaN (either sign, payloads) written exactly as the configured string without '-' "
+        "(with '+' only under required_mantissa_sign), +-inf as sign + string, a special whose string is None panics without returning bytes. " + WX_RULE,
         "assumptions": [],
     },
     "C19": {
@@ -290,5 +373,14 @@ def replay_c06(body):
     return ["replay=" + c["bits"], "type=" + c["type"], "format=" + c["format"], "prop=" + c["property"]]
 
 
-REPLAY = {"C10": replay_px, "C11": replay_px, "C12": replay_px, "C13": replay_px, "C15": replay_px, "C06": replay_c06, "C07": replay_c06, "C05": replay_c05, "C04": replay_c04, "C01": replay_input, "C02": replay_bits, "C03": replay_c03}
+def replay_wx(body):
+    c = body["case"]
+    return ["prop=" + c["property"], "idx=" + str(c["idx"]), "replay=" + c["value"], "type=" + c["type"], "spec=" + (c.get("spec") or "-:-:-:-:0:0:46:101:NaN:inf:infinity")]
+
+
+def replay_auto(body):
+    return replay_wx(body) if body["run"]["bin"].startswith("wx_") else replay_px(body)
+
+
+REPLAY = {"C08": replay_wx, "C09": replay_wx, "C14": replay_wx, "C17": replay_wx, "C10": replay_px, "C11": replay_px, "C12": replay_px, "C13": replay_px, "C15": replay_auto, "C06": replay_c06, "C07": replay_c06, "C05": replay_c05, "C04": replay_c04, "C01": replay_input, "C02": replay_bits, "C03": replay_c03}
 POST = {}
